@@ -117,6 +117,26 @@ def search(ctx, N):
                 found += 1
         if found >= 3:
             return
+    # array inputs are treated elementwise, and symmetric=True only trims: the last result and the first error estimate are dropped
+    for k in range(max(20, N // 20)):
+        m = int(rng.integers(2, 9))
+        shape = (m,) if k % 3 else (m, 3)
+        Ls, As, Qs = rng.uniform(-5, 5, size=shape), rng.uniform(0.5, 3, size=shape) * rng.choice([-1, 1], size=shape), rng.uniform(0.2, 0.8, size=shape) * rng.choice([-1, 1], size=shape)
+        e = [Ls + As * Qs ** i for i in range(3)]
+        with warnings.catch_warnings():
+            warnings.simplefilter('ignore')
+            r0, a0 = dea3(*e)
+            r1, a1 = dea3(*e, symmetric=True)
+            rs = np.array([float(dea3(float(x), float(y), float(z))[0][0]) for x, y, z in zip(np.ravel(e[0]), np.ravel(e[1]), np.ravel(e[2]))]).reshape(shape)
+        ctx.count(1)
+        desc = {'e0': np.asarray(e[0]).tolist(), 'e1': np.asarray(e[1]).tolist(), 'e2': np.asarray(e[2]).tolist()}
+        if np.shape(r0) != shape or not np.array_equal(np.asarray(r0), rs):
+            if ctx.violation('elementwise', 'dea3 on arrays of shape %r: element results differ from the scalar calls' % (shape,), desc):
+                found += 1
+        if not (np.array_equal(np.asarray(r1), np.asarray(r0)[:-1]) and np.array_equal(np.asarray(a1), np.asarray(a0)[1:])):
+            if ctx.violation('symmetric-trim', 'dea3(e0, e1, e2, symmetric=True) on arrays of shape %r is not (result[:-1], abserr[1:]) of the untrimmed call: element k of the result is no longer the limit of sequence k' % (shape,),
+                             dict(desc, result_symmetric=np.asarray(r1).tolist(), result=np.asarray(r0).tolist())):
+                found += 1
     # moderate finite inputs: finite, non-negative, no exception, inputs unmodified
     for k in range(N):
         e = [np.array(gen_triple(rng, int(rng.integers(0, 4)))[i:i + 1]) for i in range(3)]
